@@ -333,3 +333,5 @@ CHECKS += [
     Check("select", [f"{TR}.select.Select.__init__", f"{TR}.select.Select._compute"], select_compute_check, replay_keys=["C15.Select"]),
     stack_check(2), stack_check(3),
 ]
+
+VALIDATE_LAYOUT_PRIMS = True  # [V] the layout primitive contracts are sampled against real torch on every run
